@@ -117,6 +117,26 @@ func crashImages(c *Ctx, w *trace.Writer) {
 			}
 		}
 	}
+	// images that are not a whole number of 16 KiB banks x header bytes that make the size arithmetic degenerate
+	// (a ROM-size byte of 3F and above shifts the expected bank count out of the word)
+	suppTypes := []int{0x00, 0x01, 0x02, 0x03, 0x05, 0x06, 0x08, 0x09, 0x0f, 0x10, 0x11, 0x12, 0x13, 0x19, 0x1a, 0x1b, 0x1c, 0x1d, 0x1e}
+	oddSizes := []int{0x150, 0x151, 0x2000, 0x3fff, 0x4001, 0x7fff, 0xc000}
+	oddRom := []int{0x00, 0x01, 0x1f, 0x20, 0x3e, 0x3f, 0x40, 0x41, 0x7f, 0x80, 0xfe, 0xff}
+	for _, t := range suppTypes {
+		for _, sz := range oddSizes {
+			for _, rs := range oddRom {
+				if !c.Thorough() && rng.Intn(3) > 0 && rs != 0x3f && rs != 0xff {
+					continue
+				}
+				img := make([]byte, sz)
+				for i := range img {
+					img[i] = byte(rng.Intn(256))
+				}
+				img[0x147], img[0x148], img[0x149] = byte(t), byte(rs), byte([]int{0, 2, 3}[rng.Intn(3)])
+				try(fmt.Sprintf("odd-t%02x-r%02x-sz%x", t, rs, sz), img, 40)
+			}
+		}
+	}
 }
 
 func hdrOf(img []byte) []int {
